@@ -20,7 +20,8 @@ Record tcase := mkT {
   t_ref : option node;         (* workspace root the implementation had before the original commit *)
   t_specs : list N;
   t_obs : list N;
-  t_text : list (bytes * bytes) }.  (* `dud status` (human) lines: artifact path, rendered status *)            (* observed facts: 1 = something outside project/cache/config changed,
+  t_text : list (bytes * bytes);
+  t_protect : list bytes }.  (* `dud status` (human) lines: artifact path, rendered status *)            (* observed facts: 1 = something outside project/cache/config changed,
                                   2 = the dud process itself issued a mutating system call on a stage
                                   artifact during run, ... *)
 
@@ -520,7 +521,11 @@ Definition spec_table (c : tcase) : list (N * bool) :=
                  (match t_cmd c with CCheckout _ cp _ => cp | _ => false end)
                  (Some (w_root (t_pre c))) (Some (w_root (t_post c)))));
    (6, (t_ok c && spec_status_truth (t_pre c) (t_out c)));
-   (10, (spec_inputs_untouched (t_pre c) (t_post c)));
+   (10, (spec_inputs_untouched (t_pre c) (t_post c) &&
+         (* ... and so are the paths the scenario DEFINED as plain inputs / skip-cache artifacts, whatever
+            the stage file says by now (a flag lost on the way must not hide the damage) *)
+         forallb (fun p => onode_eqb (get (w_root (t_pre c)) (comps p)) (get (w_root (t_post c)) (comps p)))
+                 (t_protect c)));
    (20, (negb (has_obs c 1)));
    (24, (negb (has_obs c 3)));
    (26, (spec_human c));
